@@ -71,6 +71,73 @@ func (c *fnCtx) funcNilTest(b *ast.BinaryExpr) (string, bool) {
 	return "(negb " + c.nilFlags[o].name + ")", true
 }
 
+// returnsOnlyRecv: every return statement of the method returns the receiver identifier.
+func returnsOnlyRecv(fd *ast.FuncDecl) bool {
+	if fd.Recv == nil || len(fd.Recv.List) == 0 || len(fd.Recv.List[0].Names) == 0 || fd.Body == nil {
+		return false
+	}
+	rn := fd.Recv.List[0].Names[0]
+	ok, any := true, false
+	ast.Inspect(fd.Body, func(n ast.Node) bool {
+		switch v := n.(type) {
+		case *ast.FuncLit:
+			return false
+		case *ast.ReturnStmt:
+			any = true
+			if len(v.Results) != 1 {
+				ok = false
+				return true
+			}
+			id, isId := v.Results[0].(*ast.Ident)
+			if !isId || id.Name != rn.Name || id.Obj != rn.Obj {
+				ok = false
+			}
+		}
+		return true
+	})
+	return ok && any
+}
+
+// objNilOperand: f of `r.f == nil` / `r.f != nil` (r the receiver), else "".
+func objNilOperand(b *ast.BinaryExpr, isRecv func(ast.Expr) bool) string {
+	if b.Op != token.EQL && b.Op != token.NEQ {
+		return ""
+	}
+	isNil := func(e ast.Expr) bool {
+		id, ok := e.(*ast.Ident)
+		return ok && id.Name == "nil" && id.Obj == nil
+	}
+	x, y := b.X, b.Y
+	if isNil(x) {
+		x, y = y, x
+	}
+	if !isNil(y) {
+		return ""
+	}
+	if sel, ok := x.(*ast.SelectorExpr); ok && isRecv(sel.X) {
+		return sel.Sel.Name
+	}
+	return ""
+}
+
+// objNilTest: `m.f == nil` on an object field of the receiver (a pointer to a struct of another
+// package) -> the bool argument <f>_nil ("the field is the nil pointer"); the methods of the
+// object are still function arguments: what they do on a nil receiver is theirs to say.
+func (c *fnCtx) objNilTest(b *ast.BinaryExpr) (string, bool) {
+	f := objNilOperand(b, c.isRecv)
+	if f == "" || c.objs[f] == nil {
+		return "", false
+	}
+	x := c.extras["objnil:"+f]
+	if x == nil {
+		return "", false
+	}
+	if b.Op == token.EQL {
+		return x.name, true
+	}
+	return "(negb " + x.name + ")", true
+}
+
 // logFieldStore: q.move = e for a callback field whose calls are only logged: the log lists the
 // calls made to the field, whoever receives them, so the store itself is nothing.  Only values
 // that are such callbacks themselves: a function of the file with an empty body (nmove[T]) or a
